@@ -102,18 +102,8 @@ def select_quick(lattice, seed):
 
 
 def select_thorough(lattice, seed):
-    """every direct-mode point (per-side SDP compatibility / rtcp-mux / latching decide the transport layout there),
-    every WebRtc point within two factors of the default, and a seeded half of the remaining WebRtc points
-    (C10_FULL=1: the whole lattice, about 1.5 h)."""
-    import random
-    if os.environ.get("C10_FULL") == "1":
-        return list(lattice)
-    rnd = random.Random(seed)
-    out = []
-    for c in lattice:
-        if c["mode"] != "WebRtc" or distance(c, DEFAULT) <= 2 or rnd.random() < 1 / 2:
-            out.append(c)
-    return out
+    """the whole lattice (about 18 min with 14 harness processes)."""
+    return list(lattice)
 
 
 # --------------------------------------------------------------------------- harness + validation
